@@ -14,10 +14,10 @@ import (
 	"database/sql/driver"
 	"errors"
 	"io"
-	"regexp"
-	"strconv"
 	"math/big"
 	"reflect"
+	"regexp"
+	"strconv"
 	"strings"
 
 	"github.com/uptrace/bun"
@@ -167,7 +167,7 @@ func verifBunScan(model any) error {
 		}
 		sel = kept
 	}
-	if o := strings.Fields(verifBunStr("Order", 0)); len(o) == 2 && strings.EqualFold(o[1], "desc") {
+	if o := verifBunStr("Order", 0); strings.HasSuffix(o, " DESC") || strings.HasSuffix(o, " desc") {
 		for i, j := 0, len(sel)-1; i < j; i, j = i+1, j-1 {
 			sel[i], sel[j] = sel[j], sel[i]
 		}
